@@ -15,6 +15,7 @@ import (
 	"fmt"
 	"os"
 	"os/exec"
+	"os/signal"
 	"path/filepath"
 	"regexp"
 	"sort"
@@ -123,6 +124,11 @@ func main() {
 	}
 }
 
+var (
+	childMu   sync.Mutex
+	childPids = map[int]bool{}
+)
+
 type replayReq struct {
 	path string
 	rf   core.ReplayFile
@@ -173,13 +179,33 @@ func runProp(id, tier string, rp *replayReq) int {
 		return 2
 	}
 	var scratch []string
-	defer func() {
+	cleanup := func() {
 		for _, s := range scratch {
 			os.RemoveAll(s)
 		}
 		if os.Getenv("VERIF_KEEP") == "" {
-			os.RemoveAll(work)
+			for i := 0; i < 20; i++ { // dying children may still be writing
+				os.RemoveAll(work)
+				if _, err := os.Stat(work); os.IsNotExist(err) {
+					break
+				}
+				time.Sleep(100 * time.Millisecond)
+			}
 		}
+	}
+	defer cleanup()
+	// a terminated driver must not leave children or scratch copies behind
+	sigc := make(chan os.Signal, 1)
+	signal.Notify(sigc, syscall.SIGINT, syscall.SIGTERM, syscall.SIGHUP)
+	go func() {
+		<-sigc
+		childMu.Lock()
+		for pid := range childPids {
+			syscall.Kill(-pid, syscall.SIGKILL)
+		}
+		childMu.Unlock()
+		cleanup()
+		os.Exit(130)
 	}()
 
 	vars := p.Variants(tier)
@@ -393,6 +419,14 @@ func (ctx *runCtx) runChild(v variant, bin string, shard int, only string, timeo
 		r.exitCode = 127
 		return r
 	}
+	childMu.Lock()
+	childPids[cmd.Process.Pid] = true
+	childMu.Unlock()
+	defer func() {
+		childMu.Lock()
+		delete(childPids, cmd.Process.Pid)
+		childMu.Unlock()
+	}()
 	done := make(chan error, 1)
 	go func() { done <- cmd.Wait() }()
 	select {
